@@ -7,7 +7,7 @@
 use crate::core::*;
 use crate::prng::{mix, Prng};
 use arrayvec::ArrayVec;
-use libtw2_buffer::{with_buffer, Buffer, BufferRef, CapacityError, ReadBuffer, ReadBufferMarker};
+use libtw2_buffer::{with_buffer, Buffer, BufferRef, CapacityError, ReadBuffer, ReadBufferMarker, ReadBufferRef, ToBufferRef};
 use serde::{Deserialize, Serialize};
 use std::io;
 
@@ -23,6 +23,10 @@ pub struct BufCfg {
     /// Some(m): a second cap stacked on the first (`x.cap_at(n).cap_at(m)`): the tighter one wins
     #[serde(default)]
     pub cap_at2: Option<u16>,
+    /// top-level views are taken through the two-step API (`to_to_buffer_ref()` then `to_buffer_ref()`,
+    /// possibly several times on the same intermediate) instead of `with_buffer`
+    #[serde(default)]
+    pub two_step: bool,
 }
 
 #[derive(Clone, Debug, Serialize, Deserialize, PartialEq)]
@@ -44,6 +48,15 @@ pub enum BufOp {
     Reopen,
     /// create the intermediate and drop it without ever using it
     DropUnused,
+    /// the view itself (with whatever it already holds) is handed to the reader by value
+    /// (`ReadBufferRef::read_buffer_ref`), which ends the view
+    ReadRef { avail: u16, fault: u8, salt: u32 },
+    /// two-step API only, and only while nothing was written through the current `BufferRef` (the
+    /// constructor requires a zero count): drop it unused and take a new one from the same intermediate
+    SplitView,
+    /// the closure panics here (a crash at an arbitrary instant): the view is released during
+    /// unwinding and must still commit what was written
+    PanicExit,
 }
 
 fn v(class: &str, keys: &[(&str, &str)], obs: String) -> Violation {
@@ -96,7 +109,11 @@ struct Run<'a> {
     viol: Option<Violation>,
     exit: bool,
     trace: u64,
+    pending_readref: Option<(u16, u8, u32)>,
+    split: bool,
 }
+
+const UNWIND_MARKER: &str = "TW2SIM-UNWIND simulated crash inside the closure";
 
 #[derive(Default)]
 struct Stats {
@@ -107,6 +124,9 @@ struct Stats {
     nested: u64,
     early_exits: u64,
     capped: u64,
+    by_value_reads: u64,
+    splits: u64,
+    unwinds: u64,
 }
 
 impl<'a> Run<'a> {
@@ -120,6 +140,31 @@ impl<'a> Run<'a> {
                     return;
                 }
                 BufOp::Reopen | BufOp::DropUnused => return,
+                BufOp::SplitView => {
+                    self.pos += 1;
+                    // `BufferRef::new` requires a zero count: only an unused view may be replaced by a new one
+                    if depth == 0 && self.cfg.two_step && model.is_empty() {
+                        self.split = true;
+                        self.stats.splits += 1;
+                        return;
+                    }
+                    continue;
+                }
+                BufOp::ReadRef { avail, fault, salt } => {
+                    self.pos += 1;
+                    self.pending_readref = Some((avail, fault, salt));
+                    return;
+                }
+                BufOp::PanicExit => {
+                    self.pos += 1;
+                    if depth > 0 {
+                        // only at top level (the model of an unfinished nested view is not merged into its parent)
+                        continue;
+                    }
+                    self.exit = true;
+                    self.stats.unwinds += 1;
+                    panic!("{}", UNWIND_MARKER);
+                }
                 _ => {}
             }
             self.pos += 1;
@@ -262,9 +307,9 @@ impl<'a> Run<'a> {
                     let mut inner_model: Vec<u8> = Vec::new();
                     let n = n as usize;
                     match (cap_at, cap_at2) {
-                        (Some(c), Some(c2)) => with_buffer((&mut *b).cap_at(c as usize).cap_at(c2 as usize), |mut ib| self.in_view(&mut ib, inner_cap, &mut inner_model, n, depth + 1)),
-                        (Some(c), None) => with_buffer((&mut *b).cap_at(c as usize), |mut ib| self.in_view(&mut ib, inner_cap, &mut inner_model, n, depth + 1)),
-                        _ => with_buffer(&mut *b, |mut ib| self.in_view(&mut ib, inner_cap, &mut inner_model, n, depth + 1)),
+                        (Some(c), Some(c2)) => with_buffer((&mut *b).cap_at(c as usize).cap_at(c2 as usize), |mut ib| { self.in_view(&mut ib, inner_cap, &mut inner_model, n, depth + 1); self.finish_view(ib, inner_cap, &mut inner_model); }),
+                        (Some(c), None) => with_buffer((&mut *b).cap_at(c as usize), |mut ib| { self.in_view(&mut ib, inner_cap, &mut inner_model, n, depth + 1); self.finish_view(ib, inner_cap, &mut inner_model); }),
+                        _ => with_buffer(&mut *b, |mut ib| { self.in_view(&mut ib, inner_cap, &mut inner_model, n, depth + 1); self.finish_view(ib, inner_cap, &mut inner_model); }),
                     }
                     if self.viol.is_some() {
                         return;
@@ -299,7 +344,60 @@ impl<'a> Run<'a> {
                         return;
                     }
                 }
-                BufOp::Reopen | BufOp::DropUnused => unreachable!(),
+                BufOp::Reopen | BufOp::DropUnused | BufOp::SplitView | BufOp::ReadRef { .. } | BufOp::PanicExit => unreachable!(),
+            }
+        }
+    }
+
+    /// Ends a view: performs a pending by-value read, then checks the view's own report of what it holds.
+    fn finish_view(&mut self, b: BufferRef, capacity: usize, model: &mut Vec<u8>) -> Vec<u8> {
+        if self.viol.is_some() {
+            return b.initialized().to_vec();
+        }
+        match self.pending_readref.take() {
+            None => {
+                let got = b.initialized().to_vec();
+                self.check_initialized(&got, model);
+                got
+            }
+            Some((avail, fault, salt)) => {
+                let remaining_before = capacity - model.len();
+                if b.remaining() != remaining_before {
+                    self.viol = Some(v("remaining-wrong", &[], format!("remaining() = {} but capacity {} - {} written = {}", b.remaining(), capacity, model.len(), remaining_before)));
+                    return Vec::new();
+                }
+                let data = bytes(self.cfg.seed, salt, avail as usize);
+                let fault = fault % 5;
+                let mut rd = SimReader { data: data.clone(), fault, rng: Prng::new(mix(self.cfg.seed, salt as u64, 7)) };
+                self.stats.read_faults[fault as usize] += 1;
+                self.stats.by_value_reads += 1;
+                let r = rd.read_buffer_ref(b).map(|s| s.to_vec());
+                match r {
+                    Ok(all) => {
+                        if fault >= 3 {
+                            self.viol = Some(v("read-error-swallowed", &[], "a failing reader produced Ok".into()));
+                            return all;
+                        }
+                        // the view reports everything it holds: what was there before, then the bytes just read
+                        let ok = all.len() >= model.len() && all[..model.len()] == model[..] && {
+                            let new = &all[model.len()..];
+                            new.len() <= remaining_before && new.len() <= data.len() && new[..] == data[..new.len()] && !(fault == 2 && !new.is_empty())
+                        };
+                        if !ok {
+                            self.viol = Some(v("read-result-wrong", &[("fault", &fault.to_string()), ("call", "read_buffer_ref")], format!("a by-value read into a view already holding {} bytes ({} remaining, reader had {}) reported {} initialized bytes; old bytes intact = {}", model.len(), remaining_before, data.len(), all.len(), all.len() >= model.len() && all[..model.len()] == model[..])));
+                            return all;
+                        }
+                        *model = all.clone();
+                        self.stats.reads_ok += 1;
+                        all
+                    }
+                    Err(_) => {
+                        if fault < 3 {
+                            self.viol = Some(v("read-result-wrong", &[("fault", "spurious-error")], "read_buffer_ref failed although the reader did not".into()));
+                        }
+                        model.clone()
+                    }
+                }
             }
         }
     }
@@ -352,22 +450,41 @@ impl BufEngine {
                     };
                     let mut model: Vec<u8> = Vec::new();
                     run.exit = false;
-                    match cfg.cap_at {
-                        Some(c) if cap2.is_some() => with_buffer($mk(&mut $container).cap_at(c as usize).cap_at(cap2.unwrap() as usize), |mut b| {
-                            run.in_view(&mut b, view_cap, &mut model, usize::MAX, 0);
-                            let got = b.initialized().to_vec();
-                            run.check_initialized(&got, &model);
-                        }),
-                        Some(c) => with_buffer($mk(&mut $container).cap_at(c as usize), |mut b| {
-                            run.in_view(&mut b, view_cap, &mut model, usize::MAX, 0);
-                            let got = b.initialized().to_vec();
-                            run.check_initialized(&got, &model);
-                        }),
-                        None => with_buffer($mk(&mut $container), |mut b| {
-                            run.in_view(&mut b, view_cap, &mut model, usize::MAX, 0);
-                            let got = b.initialized().to_vec();
-                            run.check_initialized(&got, &model);
-                        }),
+                    macro_rules! one_view {
+                        ($buf:expr) => {{
+                            if cfg.two_step {
+                                let mut inter = $buf.to_to_buffer_ref();
+                                loop {
+                                    let mut b = inter.to_buffer_ref();
+                                    run.in_view(&mut b, view_cap, &mut model, usize::MAX, 0);
+                                    if run.split {
+                                        run.split = false;
+                                        drop(b);
+                                        continue;
+                                    }
+                                    run.finish_view(b, view_cap, &mut model);
+                                    break;
+                                }
+                            } else {
+                                with_buffer($buf, |mut b| {
+                                    run.in_view(&mut b, view_cap, &mut model, usize::MAX, 0);
+                                    run.finish_view(b, view_cap, &mut model);
+                                })
+                            }
+                        }};
+                    }
+                    // a simulated crash inside the closure unwinds through the release of the view
+                    let unwound = guard(|| match cfg.cap_at {
+                        Some(c) if cap2.is_some() => one_view!($mk(&mut $container).cap_at(c as usize).cap_at(cap2.unwrap() as usize)),
+                        Some(c) => one_view!($mk(&mut $container).cap_at(c as usize)),
+                        None => one_view!($mk(&mut $container)),
+                    });
+                    if let Err(p) = unwound {
+                        if p.msg != UNWIND_MARKER {
+                            run.viol = Some(v("panic", &[("message", &p.msg_class()), ("file", &p.file_class())], format!("the buffer library panicked: {} at {}:{} (store {}, capacity {}, pre-existing {}, cap_at {:?})", p.msg, p.file, p.line, cfg.store, cfg.capacity, cfg.pre_len, cfg.cap_at)));
+                        }
+                        run.split = false;
+                        run.pending_readref = None;
                     }
                     if run.viol.is_some() {
                         break;
@@ -419,17 +536,39 @@ impl BufEngine {
                 let mut model: Vec<u8> = Vec::new();
                 if cfg.store == 4 {
                     let sl: &mut [u8] = &mut backing[..];
-                    let got = match cfg.cap_at {
-                        Some(c) => with_buffer(sl.cap_at(c as usize), |mut b| {
-                            run.in_view(&mut b, view_cap, &mut model, usize::MAX, 0);
-                            b.initialized().to_vec()
-                        }),
-                        None => with_buffer(sl, |mut b| {
-                            run.in_view(&mut b, view_cap, &mut model, usize::MAX, 0);
-                            b.initialized().to_vec()
-                        }),
-                    };
-                    run.check_initialized(&got, &model);
+                    macro_rules! one_view {
+                        ($buf:expr) => {{
+                            if cfg.two_step {
+                                let mut inter = $buf.to_to_buffer_ref();
+                                loop {
+                                    let mut b = inter.to_buffer_ref();
+                                    run.in_view(&mut b, view_cap, &mut model, usize::MAX, 0);
+                                    if run.split {
+                                        run.split = false;
+                                        drop(b);
+                                        continue;
+                                    }
+                                    run.finish_view(b, view_cap, &mut model);
+                                    break;
+                                }
+                            } else {
+                                with_buffer($buf, |mut b| {
+                                    run.in_view(&mut b, view_cap, &mut model, usize::MAX, 0);
+                                    run.finish_view(b, view_cap, &mut model);
+                                })
+                            }
+                        }};
+                    }
+                    let unwound = guard(|| match cfg.cap_at {
+                        Some(c) => one_view!(sl.cap_at(c as usize)),
+                        None => one_view!(sl),
+                    });
+                    if let Err(p) = unwound {
+                        if p.msg != UNWIND_MARKER {
+                            run.viol = Some(v("panic", &[("message", &p.msg_class()), ("file", &p.file_class())], format!("the buffer library panicked: {} at {}:{} (store 4)", p.msg, p.file, p.line)));
+                        }
+                        run.pending_readref = None;
+                    }
                     if run.viol.is_none() && backing[..model.len()] != model[..] {
                         run.viol = Some(v("container-after-release-wrong", &[("store", "4"), ("what", "contents")], "the slice does not hold the written bytes at its start".into()));
                     }
@@ -438,20 +577,25 @@ impl BufEngine {
                     // reference after release (the only way to observe "length after release" for this store).
                     let mut sl: &mut [u8] = unsafe { std::slice::from_raw_parts_mut(backing.as_mut_ptr(), cap) };
                     let slp: *mut &mut [u8] = &mut sl;
-                    let got = {
+                    {
                         let r: &mut &mut [u8] = unsafe { &mut *slp };
-                        match cfg.cap_at {
+                        let unwound = guard(|| match cfg.cap_at {
                             Some(c) => with_buffer(r.cap_at(c as usize), |mut b| {
                                 run.in_view(&mut b, view_cap, &mut model, usize::MAX, 0);
-                                b.initialized().to_vec()
+                                run.finish_view(b, view_cap, &mut model);
                             }),
                             None => with_buffer(r, |mut b| {
                                 run.in_view(&mut b, view_cap, &mut model, usize::MAX, 0);
-                                b.initialized().to_vec()
+                                run.finish_view(b, view_cap, &mut model);
                             }),
+                        });
+                        if let Err(p) = unwound {
+                            if p.msg != UNWIND_MARKER {
+                                run.viol = Some(v("panic", &[("message", &p.msg_class()), ("file", &p.file_class())], format!("the buffer library panicked: {} at {}:{} (store 5)", p.msg, p.file, p.line)));
+                            }
+                            run.pending_readref = None;
                         }
-                    };
-                    run.check_initialized(&got, &model);
+                    }
                     let after: Vec<u8> = unsafe { (&*slp).to_vec() };
                     if run.viol.is_none() && after != model {
                         run.viol = Some(v("container-after-release-wrong", &[("store", "5"), ("what", if after.len() != model.len() { "length" } else { "contents" })], format!("after release the slice reference spans {} bytes, {} were written", after.len(), model.len())));
@@ -507,7 +651,8 @@ impl Engine for BufEngine {
         } else {
             None
         };
-        let cfg = BufCfg { seed: c.next_u64(), store, capacity, pre_len, cap_at, cap_at2 };
+        let two_step = store != 5 && c.chance(1, 3);
+        let cfg = BufCfg { seed: c.next_u64(), store, capacity, pre_len, cap_at, cap_at2, two_step };
         let rem = (capacity - pre_len) as u64;
         let n = c.range(1, 14);
         let mut ops = Vec::new();
@@ -523,7 +668,7 @@ impl Engine for BufEngine {
             }
         };
         for _ in 0..n {
-            match s.weighted(&[5, 4, 6, 3, 1, 2, 1, 3, 1]) {
+            match s.weighted(&[5, 4, 6, 3, 1, 2, 1, 3, 1, 2, if two_step { 3 } else { 0 }, 1]) {
                 0 => ops.push(BufOp::Write { len: lens(&mut s), salt: s.next_u64() as u32 }),
                 1 => ops.push(BufOp::Extend { len: lens(&mut s), salt: s.next_u64() as u32 }),
                 2 => ops.push(BufOp::Read { avail: lens(&mut s).saturating_add(s.below(5) as u16), fault: *s.pick(&[0u8, 0, 1, 1, 2, 3, 4]), salt: s.next_u64() as u32 }),
@@ -534,6 +679,9 @@ impl Engine for BufEngine {
                 }
                 7 => ops.push(BufOp::ExtendLoose { len: lens(&mut s).saturating_add(s.below(8) as u16), salt: s.next_u64() as u32 }),
                 8 => ops.push(BufOp::NestedDropUnused { cap_at: if s.chance(1, 2) { Some(lens(&mut s)) } else { None } }),
+                9 => ops.push(BufOp::ReadRef { avail: lens(&mut s).saturating_add(s.below(5) as u16), fault: *s.pick(&[0u8, 0, 1, 1, 2, 3, 4]), salt: s.next_u64() as u32 }),
+                10 => ops.push(BufOp::SplitView),
+                11 => ops.push(BufOp::PanicExit),
                 4 => ops.push(BufOp::FailAndExit { len: s.range(0, 10) as u16 }),
                 5 => ops.push(BufOp::Reopen),
                 _ => ops.push(BufOp::DropUnused),
@@ -544,7 +692,7 @@ impl Engine for BufEngine {
 
     fn execute(&self, case: &Case<BufCfg, BufOp>, ctx: &mut Ctx) -> Option<Violation> {
         ctx.ops_executed += case.ops.len() as u64;
-        let mut run = Run { cfg: &case.cfg, ops: &case.ops, pos: 0, stats: Stats::default(), viol: None, exit: false, trace: 0 };
+        let mut run = Run { cfg: &case.cfg, ops: &case.ops, pos: 0, stats: Stats::default(), viol: None, exit: false, trace: 0, pending_readref: None, split: false };
         let r = guard(|| {
             BufEngine::run_store(&mut run, ctx);
         });
@@ -558,6 +706,9 @@ impl Engine for BufEngine {
         ctx.count_n("probe_nested_views", run.stats.nested);
         ctx.count_n("probe_capped_views", run.stats.capped + case.cfg.cap_at.is_some() as u64);
         ctx.count_n("probe_early_exits", run.stats.early_exits);
+        ctx.count_n("probe_by_value_reads", run.stats.by_value_reads);
+        ctx.count_n("probe_split_views", run.stats.splits);
+        ctx.count_n("fault_unwind_in_closure", run.stats.unwinds);
         if run.stats.read_faults[1..].iter().sum::<u64>() > 0 {
             ctx.fault_inflight = true;
         }
@@ -585,6 +736,9 @@ impl Engine for BufEngine {
         if cfg.cap_at2.is_some() {
             v.push(BufCfg { cap_at2: None, ..cfg.clone() });
         }
+        if cfg.two_step {
+            v.push(BufCfg { two_step: false, ..cfg.clone() });
+        }
         if cfg.cap_at.is_some() {
             v.push(BufCfg { cap_at: None, cap_at2: None, ..cfg.clone() });
         }
@@ -595,7 +749,7 @@ impl Engine for BufEngine {
     }
     fn info(&self) -> EngineInfo {
         EngineInfo {
-            rule: "one run = one backing store (Vec, ArrayVec of 3 sizes, slice, slice reference; any capacity and pre-existing length; optionally capped) driven by a history of writes, iterator extends, reads from a reader with simulated faults (short read, zero-length read, EINTR, hard error), nested and capped sub-views, early exits after a refused write, re-opened views and unused intermediates; a Vec<u8> + capacity is the reference. Checked per op: remaining(), refusal instead of overrun, exact count; per view: initialized() equals the model; per release: container length = old length + bytes written and contents. Non-trivial = a reader fault fired AND a release was checked; distinct = distinct trace hash.".into(),
+            rule: "one run = one backing store (Vec, ArrayVec of 3 sizes, slice, slice reference; any capacity and pre-existing length; optionally capped) driven by a history of writes, iterator extends, reads from a reader with simulated faults (short read, zero-length read, EINTR, hard error), nested and capped sub-views, early exits after a refused write, a crash (panic) inside the closure that releases the view during unwinding, by-value reads into a view that already holds bytes, re-opened views, the two-step API with several BufferRefs taken from one intermediate, and unused intermediates; a Vec<u8> + capacity is the reference. Checked per op: remaining(), refusal instead of overrun, exact count; per view: initialized() equals the model; per release: container length = old length + bytes written and contents. Non-trivial = a reader fault fired AND a release was checked; distinct = distinct trace hash.".into(),
             assumptions: vec![
                 "the pure write/extend histories have no schedule or fault in them; they ride along as workload between faulty reads (honest limit)".into(),
                 "the slice-reference store is observed after release through a raw pointer (its borrow never ends in safe code)".into(),
@@ -603,8 +757,8 @@ impl Engine for BufEngine {
             ],
             real: vec!["buffer::{with_buffer, BufferRef, Buffer impls for Vec / ArrayVec / slice / slice ref / BufferRef / CapAt}", "buffer::ReadBuffer"],
             stub: vec!["the reader (simulated, with faults)"],
-            required_probes: vec!["probe_writes_refused", "probe_reads_ok", "probe_nested_views", "probe_capped_views", "probe_early_exits"],
-            fault_kinds: vec!["fault_short_read", "fault_zero_length_read", "fault_eintr_read", "fault_read_error"],
+            required_probes: vec!["probe_writes_refused", "probe_reads_ok", "probe_nested_views", "probe_capped_views", "probe_early_exits", "probe_by_value_reads", "probe_split_views"],
+            fault_kinds: vec!["fault_short_read", "fault_zero_length_read", "fault_eintr_read", "fault_read_error", "fault_unwind_in_closure"],
         }
     }
 }
